@@ -73,6 +73,10 @@ def corpus():
                                       ('close',)]),
         'A8-local-abort': ('acceptor', [('peer', [P['pRQ']]), ('user', 'uAC'),
                                         ('peer', [P['pPART']]), ('user', 'uABORT'), ('close',)]),
+        # a requestor may abort, or send its first request, without waiting for anything
+        'A9-request-then-abort': ('acceptor', [('peer', [P['pRQ'], P['pABORT']])]),
+        'A10-request-then-close': ('acceptor', [('peer', [P['pRQ']]), ('close',)]),
+        'A11-request-then-data': ('acceptor', [('peer', [P['pRQ'], P['pDATA'], P['pRELRQ']]), ('close',)]),
         'R1-echo': ('requestor', [('peer', [P['pAC']]), ('user', 'uDATA'), ('peer', [echo_rsp]),
                                   ('user', 'uRELRQ'), ('peer', [P['pRELRP']])]),
         'R2-find': ('requestor', [('peer', [ac_store]), ('user', 'uDATA2'), ('peer', find_rsps),
@@ -109,16 +113,39 @@ def total_peer_bytes(steps):
     return sum(len(b) for _, b, _ in peer_stream(steps))
 
 
-def build_script(role, steps, cuts=None, mode='pdu'):
+def eof_point(steps):
+    """Index of the peer burst that the peer's close follows directly (the
+    last burst when nothing but the close comes after it), else None."""
+    last = None
+    for i, step in enumerate(steps):
+        if step[0] == 'peer':
+            rest = steps[i + 1:]
+            if not rest or rest == [('close',)]:
+                last = i
+    return last
+
+
+def with_final_close(steps):
+    steps = list(steps)
+    if not steps or steps[-1] != ('close',):
+        steps.append(('close',))
+    return steps
+
+
+def build_script(role, steps, cuts=None, mode='pdu', eof_merge=False):
     """cuts: {step index: sorted offsets inside that burst}.  mode for bursts
     without explicit cuts: 'pdu' one PDU per segment, 'whole' burst at once,
-    'bytes' one byte at a time."""
+    'bytes' one byte at a time.  eof_merge: the peer's close arrives together
+    with the last segment of the burst it follows (steps must end with close)."""
     script = []
     expected = {}
+    merge_at = eof_point(steps) if eof_merge else None
     if role == 'requestor':
         obj, raws = F.user_primitive('uRQ')
         script.append(('user', obj))
     for i, step in enumerate(steps):
+        if step[0] == 'close' and merge_at is not None and i == merge_at + 1:
+            continue
         if step[0] == 'peer':
             blob = b''.join(step[1])
             if cuts is not None and i in cuts:
@@ -136,7 +163,8 @@ def build_script(role, steps, cuts=None, mode='pdu'):
             prev = 0
             for o in list(offs) + [len(blob)]:
                 if o > prev:
-                    script.append(('bytes', blob[prev:o]))
+                    last = o == len(blob)
+                    script.append(('bytes+close' if (last and i == merge_at) else 'bytes', blob[prev:o]))
                     prev = o
         elif step[0] == 'user':
             obj, raws = F.user_primitive(step[1])
